@@ -11,6 +11,7 @@ Import ListNotations.
    4 reduce (AccumulatingGroup) *)
 Record c03out := {
   k_kind : N;
+  k_n : N;                      (* kind 5: the --cols limit *)
   k_runs : list (Z * bytes)     (* per tuning variant: exit status, stdout *)
 }.
 Definition run (code : Z) (out : string) : Z * bytes := (code, unhex out).
@@ -81,6 +82,35 @@ Fixpoint starts_with (p s : bytes) : bool :=
   | _ :: _, [] => false
   end.
 
+(* spark --cols n: every periodic render trims the table to the LAST n columns in --sort-cols order. For an
+   order that is a function of the names the set of existing columns only grows, so a column among the final
+   n was never trimmed: the exported cells must be the reference cells of the exported columns, whatever
+   the refresh timing. Which n columns are kept is the sorter's business (C13): the check takes the header
+   as given and requires exactly min(n, all) distinct reference columns, every exported row to carry the
+   reference values of those columns, and a row to be exported iff it has a cell in one of them. *)
+Fixpoint nodupb (l : list bytes) : bool :=
+  match l with [] => true | x :: r => negb (existsb (bytes_eqb x) r) && nodupb r end.
+Definition spark_trim_ok (n : nat) (t : table) (rows : list (list bytes)) : bool :=
+  match rows with
+  | ([] :: cols) :: body =>
+      let refcols := map fst (t_cols t) in
+      (List.length cols =? Nat.min n (List.length refcols))%nat &&
+      forallb (fun c => existsb (bytes_eqb c) refcols) cols && nodupb cols &&
+      forallb (fun r => match r with
+                        | name :: vals => match afind name (t_rows t) with
+                                          | Some rw => bl_eq vals (map (fun c => zs (t_value rw c)) cols)
+                                          | None => false
+                                          end
+                        | [] => false
+                        end) body &&
+      nodupb (map (fun r => match r with name :: _ => name | [] => [] end) body) &&
+      forallb (fun rw : bytes * trow =>
+                 Bool.eqb (existsb (fun c => match afind c (fst (snd rw)) with Some _ => true | None => false end) cols)
+                          (existsb (fun r => match r with name :: _ => bytes_eqb name (fst rw) | [] => false end) body))
+              (t_rows t)
+  | _ => false
+  end.
+
 Definition C03_check (i : pin) (o : c03out) : bool :=
   let r := ref_of i in
   let keys := map e_key (Extract.s_matches r) in
@@ -99,6 +129,9 @@ Definition C03_check (i : pin) (o : c03out) : bool :=
       | 2%N => let s := s_run keys in
                (code =? exit_code nread (N.to_nat (Agg.s_errors s)) matched)%Z &&
                match csv_read out with Some rows => rows_eq rows (subkey_rows s) | None => false end
+      | 5%N => let t := t_run 0%N keys in
+               (code =? exit_code nread (N.to_nat (t_errors t)) matched)%Z &&
+               match csv_read out with Some rows => spark_trim_ok (N.to_nat (k_n o)) t rows | None => false end
       | 4%N => (code =? exit_code nread 0 matched)%Z &&
                match csv_read out with Some rows => reduce_rows_ok keys rows | None => false end
       | _ => (* analyze: same text under every variant (above), not a usage error, exit status *)
